@@ -29,7 +29,7 @@ Verdict ==
         badwfs == {i \in wfs : ~walks[i].ok}
         clauses ==
             IF ~pos THEN [ rejected |-> R.obs.outcome = "error" ]
-            ELSE IF R.obs.outcome # "ok" THEN [ accepted |-> FALSE ]
+            ELSE IF R.obs.outcome # "ok" THEN [ accepted |-> R.obs.outcome = "error" /\ ~Roomy(prog, w) ]   \* only a tight layout may be refused
             ELSE [ accepted |-> TRUE,
                    denotes  |-> badops = {},
                    wflips   |-> badwfs = {},
